@@ -215,6 +215,7 @@ def gen_workload(tape):
             o["via"] = tape.pick(["setitem", "write"], "via")
             o["dup_of"] = tape.choice(12, "dup_of") if tape.flag("dup", 1, 4) else None
             o["dup_days"] = tape.pick([0, 1, 0, -1], "dup_days")
+            o["layout"] = tape.choice(2, "layout")     # overwrite may change the layout
             o["serial"] = serial
             serial += 1
         elif op in ("move", "copy", "delete", "dry_delete", "collect", "find"):
@@ -268,7 +269,15 @@ def _sha(path):
         return hashlib.sha256(f.read()).hexdigest()
 
 
-def _payload(kind, serial, xr):
+def _payload(kind, serial, xr, layout=0):
+    if layout and kind == "nc":
+        # a different layout: fewer variables, other attributes
+        t = np.array(["2019-02-27T00:00:00", "2019-02-27T06:00:00"],
+                     dtype="M8[ns]") + np.timedelta64(serial, "s")
+        return xr.Dataset({"temp": ("time", np.array([9.5 + serial, np.nan]))},
+                          coords={"time": t}, attrs={"version": f"v{serial}"})
+    if layout and kind == "csv":
+        return xr.Dataset({"a": ("index", [serial, 5])})
     if kind.startswith("pickle"):
         return {"serial": serial, "blob": [serial, "x" * (serial % 7)]}
     if kind == "csv":
@@ -462,7 +471,10 @@ class Run:
             cov = naming.coverage(ms.template, t0, t1, ms.tcov)
             if cov is None:
                 return
-            payload = _payload(ms.kind, o["serial"], xr)
+            payload = _payload(ms.kind, o["serial"], xr,
+                               o.get("layout", 0) if kind == "overwrite" else 0)
+            if kind == "overwrite" and o.get("layout"):
+                self.sim.probe("overwrite_with_other_layout")
             stored = payload
             if ms.kind.startswith("pickle") and w["write_args"]:
                 stored = dict(payload, write_tag="WA")
